@@ -436,7 +436,7 @@ func init() {
 		Level: "exploration",
 		Rule: "generated object literals (bare, symbol, quoted and pinned keys, private names, duplicates at every distance, 0–2 `**obj` operands written literally or through a variable, sizes 0–12) and map literals over 27 key spellings (ints, floats, strs, symbols, nil, booleans, arrays, objects, nested, computed) with duplicates within and across `**map` / `**obj` operands; values are unique ints. " +
 			"Every accessor of the statement (keys, values, items, A, len, iteration, indexing present/absent, private?: true, S/repr/printing) is compared with a first-wins ordered-dictionary model, plus model-free cross-accessor relations. `**` operands are written after the literal pairs (where 'first occurrence' is unambiguous). distinct = distinct (kind, tag set, size) classes; non-trivial = the literal evaluated to a value" +
-			" Added: nil values (one in five), float keys closer than 1e-9, names with !/?/_ suffixes and non-symbol keys, ** operands written through variables must be unchanged afterwards.",
+			" Added: nil values (one in five), float keys closer than 1e-9, names with !/?/_ suffixes and non-symbol keys, ** operands written through variables must be unchanged afterwards. Sixth round: strs differing only in continuation bytes of multi-byte characters as keys and names; `Arr#M` over repeated pairs.",
 		Assumptions: []string{
 			"model: object = first-wins over names, listed sorted by name (public, then private when asked); map = first-wins where scalar keys are identified by (type, value) and other keys by structural equality, iterated scalars-first in insertion order",
 			"NaN and -0.0 keys and `**` operands written before literal pairs are not generated (the statement does not fix their meaning)",
